@@ -495,6 +495,18 @@ def f(a, b):
         m = a
     return m
 """, must=["if b >= a"])
+case("roll by one then set the first entry -> insert and drop the last", """
+def f(lamj, lam):
+    lamj = np.roll(lamj, 1)
+    lamj[0] = lam
+    return lamj
+""", must=["np.insert(lamj, 0, lam)[0:-1]"])
+case("roll: NOT by another shift", """
+def f(a, v):
+    a = np.roll(a, 2)
+    a[0] = v
+    return a
+""", must=["np.roll(a, 2)"])
 
 
 def main():
